@@ -308,6 +308,25 @@ def run(prop, tier):
         lab = d["label"]
         V.violation("C06 %s %s par=%s" % (clause, lab if isinstance(lab, str) else lab.get("model"), d["par"] if isinstance(lab, str) else "*"), dict(clause=clause, **d))
     cov["samples"] = [cases[0], cases[len(cases) // 2]]
+    # ---- the pipeline inside the engine: worlds whose parameters are functions of the same-step state (compartments, characteristics
+    # with denominators, other parameters in chains and diamonds, limits that bind), explored exhaustively and replayed
+    from . import engine as E
+    from . import worlds as WD
+
+    Wf = [w for w in WD.catalogue(tier) if any(p.get("fn") for p in w["pars"])]
+    r1 = E.explore(Wf, "r1", 1, ["C06_InLimits"], [])
+    if r1["overflow"]:
+        raise C.MachineryError("32-bit overflow in worlds %s" % r1["overflow"])
+    if r1["violated"]:
+        raise C.MachineryError("specification property %s refuted in world %s" % (r1["violated"][0][1], r1["violated"][0][0]))
+    outs = E.replay(Wf, r1["cases"])
+    cov["states"] += r1["states"]
+    cov["transitions"] += r1["transitions"]
+    cov["engine_function_worlds"] = [w["id"] for w in Wf]
+    cov["engine_function_cases_replayed"] = len(outs)
+    for (wid, case), o in zip(r1["cases"], outs):
+        if o["mism"]:
+            V.violation("C06 engine pipeline %s world=%s" % (o["mism"][0][0], wid.split("_dt")[0]), dict(world=wid, case=case, mismatch=o["mism"]))
     # ---- "initial-size data are scaled by calibration factors in the same way": the initialisation cases of InitSolve.tla with
     # fractions and calibration factors (shared machinery with C07, verdicts attributed to C06 here)
     from . import props_c07
